@@ -632,6 +632,23 @@ func (fr *FnRun) evalCall(e *Expr, env *Env) Val {
 	case "isnil":
 		need(1)
 		return fr.specEq(env.st, arg(0), nilMarker{})
+	case "calls":
+		// calls("pattern"): how many calls matching the pattern this function has made so far on the
+		// current path (see initCallCounters)
+		if len(e.Args) != 1 || e.Args[0].Kind != "str" {
+			panic(abortf("contract: calls(\"pattern\")"))
+		}
+		if fr.callsObj == nil {
+			panic(abortf("contract: calls() is only available in postconditions and call-site assertions of the function under verification"))
+		}
+		sv, ok := env.st.heap[fr.callsObj].(*StructV)
+		if !ok {
+			return Int(0)
+		}
+		if v, ok := sv.Ghost[e.Args[0].Str]; ok {
+			return v
+		}
+		panic(abortf("contract: calls(%q): unknown pattern", e.Args[0].Str))
 	case "each":
 		// each(s, e, pred): every element of the reference-typed slice s satisfies pred (with e bound
 		// to the element).  Only in ASSUMED postconditions (dependency contracts): the fact is attached
